@@ -15,3 +15,14 @@ out = sorted(set(f.qname for f in F.fns if f.kind in ("fn", "method") and not f.
 p = os.path.join(os.path.dirname(os.path.dirname(os.path.abspath(__file__))), "tables", "anchors.json")
 json.dump({"_doc": "functions named in rules/*.py or engine/roles.py on the reviewed tree; never virtually inlined", "anchors": out}, open(p, "w"), indent=0)
 print(len(out), "anchors")
+
+# reviewed paths of types, constants and free functions (engine/aliases.py)
+from engine import aliases
+from engine.facts import CRATES
+raw = {}
+for c in CRATES:
+    with open(os.path.join(fd, c + ".json")) as fh:
+        raw[c] = json.load(fh)
+inv = aliases.inventory(raw)
+json.dump(inv, open(aliases.TABLE, "w"), indent=0, sort_keys=True)
+print(len(inv["adts"]), "adts", len(inv["consts"]), "consts", len(inv["free_fns"]), "free fns")
